@@ -1,7 +1,7 @@
 (* Property C17: all memory goes through the user's allocators and is released at finish.
    Only the property theorems, each closed by [exact] and followed by Print Assumptions. *)
 From Coq Require Import List NArith Bool.
-From MirV Require Import C19.Varr C17.Alloc C17.AllocProofs C17.VarrTrace C17.CodeHolder C17.CodeHolderProofs.
+From MirV Require Import C19.Varr C17.Alloc C17.AllocProofs C17.VarrTrace C17.CodeHolder C17.CodeHolderProofs C17.Frame.
 
 (* The executable monitor that the check runs on the allocator-call traces of the real library
    accepts a trace exactly when the trace satisfies the contract of CUSTOM-ALLOCATORS.md stated
@@ -46,3 +46,21 @@ Theorem code_holder_traces_accepted : forall ops,
   accepts (chtrace chs0 (ops ++ (FinishAll :: nil)) ++ (Finish :: nil)) = true.
 Proof. exact code_holder_traces_accepted_lemma. Qed.
 Print Assumptions code_holder_traces_accepted.
+
+(* Frame / composition: two accepted traces that name disjoint non-null blocks and touch disjoint
+   code pages (no Finish / Direct inside) stay accepted under EVERY interleaving, and if each ends
+   clean (accepted with Finish appended) so does the interleaving.  A context that uses several VARRs
+   (HTAB = descriptor + two VARRs, bitmap = one VARR, ...) and code holders emits an interleaving of
+   their individual traces, each covered by varr_traces_accepted / code_holder_traces_accepted. *)
+Theorem interleaving_accepted : forall a b t,
+  merge a b t -> Forall local_event a -> Forall local_event b -> separate a b ->
+  accepts a = true -> accepts b = true -> accepts t = true.
+Proof. exact interleaving_accepted_lemma. Qed.
+Print Assumptions interleaving_accepted.
+
+Theorem interleaving_finish_accepted : forall a b t,
+  merge a b t -> Forall local_event a -> Forall local_event b -> separate a b ->
+  accepts (a ++ (Finish :: nil)) = true -> accepts (b ++ (Finish :: nil)) = true ->
+  accepts (t ++ (Finish :: nil)) = true.
+Proof. exact interleaving_finish_accepted_lemma. Qed.
+Print Assumptions interleaving_finish_accepted.
